@@ -59,7 +59,8 @@ def conversion_classes(ctx):
                 "tgt": None, "stats": False,
                 "src_bs": "-", "dst_bs": "-",        # compressed_segmentation block sizes ("bs4", "bs16x8x4")
                 "shape": None, "voxel": None,        # fixed volume geometry (else drawn per family)
-                "kind": None, "triple": None, "shard_enc": None, "shard_index_enc": None}
+                "kind": None, "triple": None, "shard_enc": None, "shard_index_enc": None,
+                "slices": None, "rgb": False, "slice_format": "png"}   # source built from a slice stack
         base.update(kw)
         out.append(base)
 
@@ -174,6 +175,16 @@ def conversion_classes(ctx):
     for n, (shape, voxel) in enumerate(THICK):
         add(src_dtype=["uint8", "uint16", "float32"][n % 3], shape=shape, voxel=voxel,
             dst_dtype=["uint16", "-", "-"][n % 3], copy=["keep", "copy", "keep"][n % 3])
+    # 13. sources built by slices-to-precomputed from PNG / TIFF stacks (hand-written full-resolution
+    #     info; orientation codes incl. reversed slice axes)
+    add(src_dtype="uint8", slices="RPI", dst_dtype="uint16")
+    add(src_dtype="uint16", slices="LIP", copy="copy", slice_format="tiff")
+    add(src_dtype="uint8", slices="ASR", rgb=True, dst_sh="s110", iso=True)
+    add(src_dtype="uint8", slices="IAL", channels=2, dst_dtype="uint32")
+    add(src_dtype="uint8", slices="RIA", src_type="segmentation", dst_type="segmentation",
+        dst_enc="compressed_segmentation", method="majority")
+    add(src_dtype="uint16", slices="SPL", src_sh="s110", iso=True, dst_sh="nosh", slice_format="tiff")
+    add(src_dtype="uint8", slices="PIR", shape=[6, 6, 40], voxel=[1.0, 1.0, 4.0], repeat=True)
     return out
 
 
@@ -204,11 +215,21 @@ def prog_of(rng, k):
     if lv > 3:
         raise tlc.MachineryError("conversion class with more than 3 scales: %r" % (shape,))
     vol["nall"] = lv
-    cmds = [C("GenInfo", "A", sh=k["src_sh"]),
-            C("GenScales", "A", src="A", type=k["src_type"], enc=k["src_enc"], max=k["src_max"])]
+    if k["rgb"]:
+        vol["rgb"] = True
+    if k["slices"]:
+        # no --generate-info for slices: hand-written info_fullres.json, sharding by editing the info
+        cmds = [C("HandInfo", "A", sh="nosh"),
+                C("GenScales", "A", src="A", type=k["src_type"], enc=k["src_enc"], max=k["src_max"])]
+        if k["src_sh"] != "nosh":
+            cmds.append(C("Edit", "A", sh=k["src_sh"]))
+    else:
+        cmds = [C("GenInfo", "A", sh=k["src_sh"]),
+                C("GenScales", "A", src="A", type=k["src_type"], enc=k["src_enc"], max=k["src_max"])]
     if k["src_bs"] != "-":
         cmds.append(C("Edit", "A", enc=k["src_bs"], sh="keep"))
-    cmds += [C("Vol", "A"), C("Compute", "A", m=k["method"])]
+    cmds += [C("Slices", "A", code=k["slices"]) if k["slices"] else C("Vol", "A"),
+             C("Compute", "A", m=k["method"])]
     if k["copy"] == "keep":
         cmds.append(C("GenScales", "B", src="A", type=k["dst_type"], enc=k["dst_enc"], max=k["dst_max"]))
         if k["dst_dtype"] != "-" or k["dst_sh"] != "keep" or k["dst_bs"] != "-":
@@ -225,7 +246,7 @@ def prog_of(rng, k):
             "http": ["A"] if k["remote"] else [],
             "shard_enc": k["shard_enc"] or rng.choice(["gzip", "raw"]),
             "shard_index_enc": k["shard_index_enc"] or k["shard_enc"] or rng.choice(["gzip", "raw"]),
-            "shard_triple": k["triple"],
+            "shard_triple": k["triple"], "slice_format": k["slice_format"],
             "docs_shflag": rng.random() < 0.5, "klass": k}
 
 
@@ -270,7 +291,7 @@ def run(ctx):
         ctx.mc("MC_Pipeline", "MC_Pipeline_quick", workers=16)
     else:
         ctx.mc("MC_Pipeline", "MC_Pipeline", workers=16, coverage=True)
-        ctx.mc("MC_Pipeline", "MC_Pipeline_all", workers=16)
+        ctx.mc("MC_Pipeline", "MC_Pipeline_all_quick", workers=16)
     bad = tlc.model_check("MC_Pipeline", "MC_Pipeline_devLayout", workers=8)
     if bad["ok"] or "SuccessMeansComplete" not in bad["invariant_violated"]:
         raise tlc.MachineryError("deviation switch CopyInfoLayout=byOptions did not violate the oracle")
@@ -278,7 +299,7 @@ def run(ctx):
 
     # --- C->S: conversion classes --------------------------------------------
     classes = conversion_classes(ctx)
-    reps = ctx.pick(1, 10)
+    reps = ctx.pick(1, 8)
     progs = []
     for r in range(reps):
         for k in classes:
